@@ -38,7 +38,7 @@ const FILES = ['/p/app.js', 'app.js', './d/app.js', 'C:\\p\\app.js', '/p/my file
 function posixBase (f) { return f.split('/').filter((x) => x.length).pop() }
 
 // ---- oracle ----------------------------------------------------------------------------------------------
-function checkMap ({ a, resp, code, file, v, res }) {
+function checkMap ({ a, resp, code, file, v, res, identifiersOnly }) {
   const t = trailerInfo(resp.content)
   if (!t.map) { v('no-embedded-map', 'trailer', 'no decodable trailer'); return }
   const m = t.map
@@ -94,6 +94,9 @@ function checkMap ({ a, resp, code, file, v, res }) {
     if (!s || s.gl !== gp.line || s.gc !== gp.col) v('identifier-without-mapping', 'hook-operand-copy', `the copy of ${c.name} handed to the hook at content ${gp.line}:${gp.col} has no mapping of its own (the position resolves to ${s ? s.ol + ':' + s.oc : 'nothing'}, the reference is at ${so.ol}:${so.oc})`)
     else if (s.ol !== so.ol || s.oc !== so.oc) v('identifier-maps-elsewhere', 'hook-operand-copy', `the copy of ${c.name} handed to the hook at content ${gp.line}:${gp.col} maps to ${s.ol}:${s.oc}, the reference is at ${so.ol}:${so.oc}`)
   }
+  // (the size family is judged by rules 1-2b only: the statement rules below look every segment up in every
+  // statement, which is quadratic in the number of statements)
+  if (identifiersOnly) return
   // 3. every mapping generated inside a statement maps into the line span of that statement
   const hasHook = (n) => { let f = false; (function w (x) { if (f || x === null || typeof x !== 'object') return; if (Array.isArray(x)) { x.forEach(w); return } if (x.$hooked || x.$guarded) { f = true; return } for (const k of Object.keys(x)) if (k[0] !== '$') w(x[k]) })(n); return f }
   const S = stmts.map((s) => ({ instrumented: hasHook(s.node), gs: outPos(s.out), ge: outEnd(s.out), is: inPos(s.in).line, ie: tin.fromByte(s.in.end - 2 >= 0 ? s.in.end - 2 : 0).line, type: s.type, len: s.out.end - s.out.start })).sort((x, y) => x.len - y.len)
@@ -182,13 +185,22 @@ module.exports = mk({
       if (l.pick.eol === 'crlf') code = code.replace(/\n/g, '\r\n')
       leaves.push({ fam: 'mapref', key: ['mapref', l.pick.pos, l.pick.url, l.pick.comments, l.pick.chain, l.pick.eol].join('¦'), code, file: '/p/app.js', config: Object.assign({}, C.FULL, { comments: l.pick.comments, chainSourceMap: l.pick.chain }), desc: 'mapref ' + l.pick.pos, chained: l.pick.chain && l.pick.url === 'data_url' })
     }
+    // file sizes around every power of two from 64 KiB to 1 MiB (a size threshold, a 16-bit column or offset): the
+    // same three-line function repeated, so every line of a big file is judged like the lines of a small one
+    for (const kib of [63, 65, 127, 129, 255, 257, 511, 513, 1023, 1025]) {
+      const unit = (k) => `function f${k}(a, b) {\n  return a + b.trim();\n}\n`
+      let code = ''
+      for (let k = 0; code.length < kib * 1024; k++) code += unit(k)
+      r2.stats.states++; r2.stats.transitions++
+      leaves.push({ fam: 'size', key: 'size¦' + kib, code, file: '/p/big.js', config: 'FULL', desc: 'size ' + kib + ' KiB' })
+    }
     return { leaves, stats: addStats(r.stats, r2.stats) }
   },
   oracle ({ a, v, res, resp, code, leaf }) {
     if (!a.modified || a.contentUnparsable || a.inputUnparsable) return
     if (leaf.chained) return // composition is C10's business; here the map must describe THIS input
     res.nontrivial = true
-    checkMap({ a, resp, code, file: require('../lib/static_driver').leafFile(leaf), v, res })
+    checkMap({ a, resp, code, file: require('../lib/static_driver').leafFile(leaf), v, res, identifiersOnly: leaf.fam === 'size' })
   },
   bound: (tier) => ({ layout_file_comments_deviations_k: tier === 'thorough' ? 3 : 1, layouts: Object.keys(LAYOUTS).length, files: FILES.length }),
   alphabets: () => ({ layouts: Object.keys(LAYOUTS), files: FILES }),
